@@ -2427,7 +2427,7 @@ fn hide_stream(r: &Rng, out: &mut Out, n: usize, op: &str) {
     }
     // the value related to the key stream of its own hiding (a ciphertext chunk all zero, all ones, equal to the one
     // before it, equal to the first key), at the first, second and third chunk
-    for target in 0..4usize {
+    for target in 0..6usize {
         for at in 0..3usize {
             for _ in 0..3 {
                 if let Some((kind, value, s_, rv, lp, cipher)) = keystream_case(r, target, at) {
@@ -2500,7 +2500,8 @@ fn hide_stream(r: &Rng, out: &mut Out, n: usize, op: &str) {
 
 /// Hide arguments computed from each other: the value chosen so that one 16-octet chunk of the plaintext equals its
 /// own key (the ciphertext chunk is all zero), its complement (all ones), the key xor the previous ciphertext chunk
-/// (two equal ciphertext chunks in a row, hence two equal keys) or the key xor the first key.  For the first chunk the
+/// (two equal ciphertext chunks in a row, hence two equal keys), the key xor the first key, or the key xor the last /
+/// first 16 octets of the secret (a ciphertext chunk that repeats the secret's tail or head).  For the first chunk the
 /// original-length field is part of it, so the random vector is searched until the first key starts with a feasible
 /// length.  Returns (kind, value, secret, rv, length padding, ciphertext).
 fn keystream_case(r: &Rng, target: usize, at: usize) -> Option<(&'static str, Vec<u8>, Vec<u8>, Vec<u8>, Vec<u8>, Vec<u8>)> {
@@ -2509,14 +2510,15 @@ fn keystream_case(r: &Rng, target: usize, at: usize) -> Option<(&'static str, Ve
         let rec = encode_avp(&TAvp::new(kind, vec!["00".into()]))?;
         ((rec[4] as u16) << 8) | rec[5] as u16
     };
-    let s = secret(r);
+    // (targets 4 and 5 take the ciphertext chunk from the secret's own tail / head: a secret of 16 octets and more)
+    let s = if target >= 4 { r.bytes(16 + r.below(24)) } else { secret(r) };
     let key0_of = |rv: &[u8]| {
         let mut buf = attr.to_be_bytes().to_vec();
         buf.extend_from_slice(&s);
         buf.extend_from_slice(rv);
         md5::compute(&buf).0
     };
-    let tgt = |i: usize, key: &[u8; 16], key0: &[u8; 16], prev: &[u8]| -> u8 {
+    let tgt = |i: usize, _key: &[u8; 16], key0: &[u8; 16], prev: &[u8]| -> u8 {
         match target {
             0 => 0,
             1 => 0xff,
@@ -2527,7 +2529,21 @@ fn keystream_case(r: &Rng, target: usize, at: usize) -> Option<(&'static str, Ve
                     prev[i]
                 }
             }
-            _ => key[i] ^ key0[i] ^ key[i],
+            3 => key0[i],
+            4 => {
+                if s.len() >= 16 {
+                    s[s.len() - 16 + i]
+                } else {
+                    0
+                }
+            }
+            _ => {
+                if s.len() >= 16 {
+                    s[i]
+                } else {
+                    0xff
+                }
+            }
         }
     };
     let mut rv = r.bytes(4);
@@ -3965,10 +3981,16 @@ fn with_neighbours(r: &Rng, lines: Vec<String>, rejected: bool) -> Vec<String> {
 fn big_writer_cases(r: &Rng, out: &mut Out, n: usize) {
     const G: usize = 1 << 32;
     for i in 0..n {
-        let size = match i % 4 {
+        // (… and prefixes that end a few octets below a multiple of 2^32, so that the value written straddles it)
+        let size = match i % 9 {
             0 => G,
             1 => G + 1,
             2 => G - 1,
+            3 => G - 3,
+            4 => G - 7,
+            5 => G - 12,
+            6 => G - 40,
+            7 => 2 * G - 6,
             _ => G + 65536 + r.below(1000),
         };
         match i % 3 {
@@ -4067,7 +4089,7 @@ fn generate_base(prop: &str, tier: &str, seed: u64) -> Vec<String> {
         "C03" => {
             c03_stream(&r, &mut out, n(6000, 400000), thorough);
             dictionary_stream(&r, &mut out, "rt");
-            big_writer_cases(&Rng::new(seed, "bigw-C03"), &mut out, n(9, 30));
+            big_writer_cases(&Rng::new(seed, "bigw-C03"), &mut out, n(27, 90));
         }
         "C04" => c04_stream(&r, &mut out, n(20000, 1000000)),
         "C05" => {
@@ -4092,7 +4114,7 @@ fn generate_base(prop: &str, tier: &str, seed: u64) -> Vec<String> {
             }
             enc_stream(&r, &mut out, n(15000, 900000), false, false);
             dictionary_stream(&r, &mut out, "enc");
-            big_writer_cases(&Rng::new(seed, "bigw-C06"), &mut out, n(9, 30));
+            big_writer_cases(&Rng::new(seed, "bigw-C06"), &mut out, n(27, 90));
             // the specified octets do not depend on what the writer already holds
             enc_stream(&r, &mut out, n(3000, 60000), true, false);
             for m in MESSAGE_TYPES.iter() {
@@ -4141,7 +4163,7 @@ fn generate_base(prop: &str, tier: &str, seed: u64) -> Vec<String> {
                 out.push(format!("enca . ProxyAuthenType({:?})", p));
             }
             enc_stream(&r, &mut out, n(8000, 450000), true, true);
-            big_writer_cases(&Rng::new(seed, "bigw-C07"), &mut out, n(6, 30));
+            big_writer_cases(&Rng::new(seed, "bigw-C07"), &mut out, n(27, 90));
         }
         "C08" => {
             c08_stream(&r, &mut out, n(20000, 400000));
@@ -4155,7 +4177,7 @@ fn generate_base(prop: &str, tier: &str, seed: u64) -> Vec<String> {
                 }
             }
             enc_stream(&r, &mut out, n(12000, 250000), true, false);
-            big_writer_cases(&Rng::new(seed, "bigw-C09"), &mut out, n(12, 40));
+            big_writer_cases(&Rng::new(seed, "bigw-C09"), &mut out, n(54, 180));
             for _ in 0..n(2000, 40000) {
                 let k = 1 + r.below(8);
                 let mut before = 0usize;
